@@ -284,6 +284,22 @@ func c02run(w *report.W) {
 			w.P.Bounds[fmt.Sprintf("generated(focus=%v)", gr.focus)] = fmt.Sprintf("deviations<=%d: %d choice sequences", gr.bound, ex.Stats.Executions)
 		}
 	}
+	// (1c) the documents whose size grows (wide mappings, wide and long merges, deep nesting, many steps, large matrices,
+	// long strings): the marshalled form is larger / deeper than the source, and must still parse and verify
+	for _, doc := range docgen.ScaleDocs() {
+		for _, pres := range []string{"yaml-block", "json"} {
+			if pres == "json" && (strings.Contains(doc.Descr, "merg") || strings.Contains(doc.Descr, "anchor")) {
+				continue
+			}
+			text, err := docgen.Render(doc.In, pres)
+			if err != nil || !w.Take("scale|"+pres+"|"+doc.Descr) {
+				continue
+			}
+			for _, kind := range []string{"EdDSA", "ES512"} {
+				c02record(w, "scale", doc.Descr+" ["+pres+"]", text, c02opts{keyKind: kind, yamlLeg: true}, 80+len(text)/400)
+			}
+		}
+	}
 	// (2) all key kinds, with and without interpolation, on the <=1-deviation slice (no focus)
 	ex2 := &explore.Explorer{Bound: 1}
 	ex2.Run = func(x *explore.X) bool {
@@ -407,7 +423,7 @@ func init() {
 	register(&report.Check{
 		ID: "C02",
 		Rule: "(1) generated pipeline documents (choice explorer; plugin / matrix / step-env shorthands of the first command step fully open with <=1 deviation elsewhere, plus all documents within 2 (quick) / 3 (thorough) deviations: all step kinds, groups, " +
-			"pipeline env forms, extras), YAML and JSON input; (2) the <=1-deviation slice with every key kind (EdDSA, ES512, PS512, ES256 crypto.Signer) with and without Interpolate before signing; (3) every string of " +
+			"pipeline env forms, extras), YAML and JSON input, and the size-growing documents of docgen.ScaleDocs (wide mappings, wide / long merges, nesting to 64 levels, 257 steps, 7x21 matrices, 5 kB strings); (2) the <=1-deviation slice with every key kind (EdDSA, ES512, PS512, ES256 crypto.Signer) with and without Interpolate before signing; (3) every string of " +
 			"the C09 alphabet (look-alikes + all strings of <=1/2 runes) at every signed string position (pipeline env names/values, command, step env, plugin configs, matrix) of two base documents; (4) sign+marshal " +
 			"under every explored map iteration order (seam). Lifecycle per case: Parse -> [Interpolate] -> SignSteps(pipeline env) -> marshal JSON and YAML -> Parse the output / CommandStep.UnmarshalJSON of each step's JSON -> " +
 			"Verify every command step with verification env = signed pipeline env (and the re-parsed pipeline's env) + step env + unrelated variables, and all steps in document order with ONE env map object (signed pipeline env + unrelated variables), which must be left unchanged. Pipelines with unknown steps must be refused. Non-trivial = at least one " +
